@@ -30,8 +30,18 @@ def run(ctx, F):
     S = sym.Sym(prog, inline_depth=0)
     # ---------------------------------------------------------------- (i)
     n = 0
-    for ty, name in (("variablescope::ScopeRef", "expose"), ("variablescope::Scope", "do_use")):
-        f = tree.one_method(ty, name)
+    roots = [(ty, name, tree.one_method(ty, name)) for ty, name in (("variablescope::ScopeRef", "expose"), ("variablescope::Scope", "do_use"))]
+    # the two entry points and the private helpers of the same module they are split into (a loop moved into
+    # `expose_prefixed` is still do_use's loop)
+    todo = []
+    for ty, name, f in roots:
+        todo.append((ty, name, f))
+        called = {m["m"] for m in A.walk(f["body"]) if m.get("e") == "mcall"} | {A.strip(m["f"])["p"].rsplit("::", 1)[-1] for m in A.walk(f["body"]) if m.get("e") == "call" and A.strip(m["f"]).get("e") == "path"}
+        for h in tree.fn_list:
+            if h["path"].startswith("variablescope::") and h is not f and h["sig"]["name"] in called and h["sig"]["name"] not in ("expose", "do_use") \
+                    and any(f".{k}." in A.show(x.get("iter") or {}) for x in A.walk(h["body"]) if x.get("e") == "for" for k in KINDS):
+                todo.append((ty, name, h))
+    for ty, name, f in todo:
         for node in A.walk(f["body"]):
             if node.get("e") != "for":
                 continue
